@@ -641,3 +641,17 @@ B('f_c12_ring_module_attribute_rebound', ['C12'], 'R12.e',
 T('f_c12_ring_setattr_on_response', ['C12'],
   (URL, _SR, "        resp = next(**{self.provided_name: request.script_root})\n        setattr(resp, 'script_root', request.script_root)\n"
              "        vars(resp)['seen_by'] = self.provided_name\n        return resp\n"))
+
+# ---- C12 / R12.e: a closure the constructor builds runs while requests are served ---------------------------------------------
+CTX = 'clastic/middleware/context.py'
+_PRC = ('            desired_args = self.required + list(self.defaults.keys())\n')
+B('f_c12_ring_ctor_closure_writes_self', ['C12'], 'R12.e',
+  (CTX, _PRC, '            self.last_context = context\n' + _PRC))
+B('f_c12_ring_ctor_closure_updates_field_alias', ['C12'], 'R12.e',
+  (CTX, '    def _create_render(self):\n', '    def _create_render(self):\n        remembered = self.defaults\n'),
+  (CTX, '                context[arg] = kwargs.get(arg, self.defaults.get(arg))\n',
+        '                context[arg] = kwargs.get(arg, self.defaults.get(arg))\n                remembered[arg] = context[arg]\n'))
+T('f_c12_ring_ctor_closure_own_locals', ['C12'],
+  (CTX, _PRC, '            filled = {}\n' + _PRC),
+  (CTX, '                context[arg] = kwargs.get(arg, self.defaults.get(arg))\n',
+        '                context[arg] = kwargs.get(arg, self.defaults.get(arg))\n                filled[arg] = context[arg]\n'))
